@@ -36,6 +36,9 @@ type Proxy struct {
 	answer    map[string]string // method -> result JSON the proxy answers itself (the request is not forwarded)
 	// LastMonitorID is the JSON of the monitor id of the last monitor* request that went through
 	LastMonitorID json.RawMessage
+	// replaceResult, when set, becomes the result of the reply to the next monitor* request (ReplaceNextMonitorReply)
+	replaceResult []byte
+	replaceID     string
 
 	// since mode: the proxy makes the server behind it one that remembers transaction ids (see since.go)
 	since      bool
@@ -126,9 +129,12 @@ func (p *Proxy) pump(pr *pair, from, to net.Conn, dir string) {
 				ID     json.RawMessage   `json:"id"`
 				Params []json.RawMessage `json:"params"`
 			}
-			if json.Unmarshal(raw, &m) == nil && len(m.Method) > 7 && m.Method[:7] == "monitor" && m.Method != "monitor_cancel" && len(m.Params) > 1 {
+			if json.Unmarshal(raw, &m) == nil && len(m.Method) >= 7 && m.Method[:7] == "monitor" && m.Method != "monitor_cancel" && len(m.Params) > 1 {
 				p.mu.Lock()
 				p.LastMonitorID = m.Params[1]
+				if p.replaceResult != nil && p.replaceID == "" {
+					p.replaceID = string(m.ID)
+				}
 				p.mu.Unlock()
 			}
 			p.mu.Lock()
@@ -138,6 +144,23 @@ func (p *Proxy) pump(pr *pair, from, to net.Conn, dir string) {
 				if res, ok := ans[m.Method]; ok && len(m.ID) > 0 && string(m.ID) != "null" {
 					_, _ = from.Write([]byte(`{"id":` + string(m.ID) + `,"result":` + res + `,"error":null}` + "\n"))
 					continue
+				}
+			}
+		}
+		if dir == "s2c" {
+			p.mu.Lock()
+			rid, rres := p.replaceID, p.replaceResult
+			p.mu.Unlock()
+			if rid != "" {
+				var msg map[string]json.RawMessage
+				if json.Unmarshal(raw, &msg) == nil && string(msg["id"]) == rid && len(msg["method"]) == 0 {
+					msg["result"] = rres
+					if out, err := json.Marshal(msg); err == nil {
+						raw = out
+					}
+					p.mu.Lock()
+					p.replaceID, p.replaceResult = "", nil
+					p.mu.Unlock()
 				}
 			}
 		}
@@ -189,6 +212,13 @@ func (p *Proxy) InjectToClient(raw []byte) int {
 		}
 	}
 	return n
+}
+
+// ReplaceNextMonitorReply makes result the result of the server's reply to the next monitor* request.
+func (p *Proxy) ReplaceNextMonitorReply(result []byte) {
+	p.mu.Lock()
+	p.replaceResult, p.replaceID = result, ""
+	p.mu.Unlock()
 }
 
 func (p *Proxy) MonitorID() json.RawMessage {
